@@ -15,6 +15,7 @@ RULE = ('Hypothesis draws (T, v) from U and decorates T with value-range / singl
         'constraint by its set-theoretic denotation), the library\'s encoder must accept it and decode(encode(result)) must give '
         'the same abstract value. Non-trivial = an accepted input that is not a valid encoding of a conforming value, or a valid '
         'one under a constrained type; distinct = distinct (T, input, decoder).')
+RULE += (' ' + 'Also: ANY members (what an ANY holds must start with one identifier that is not [UNIVERSAL 0] and, when definite, span exactly the held octets), a member whose identifier octet is zeroed, and the accepted result re-encoded in indefinite form as well (outside known finding F01).')
 ASSUMPTIONS = ['constraint denotations are evaluated by pv/core/cons.py, not by pyasn1.type.constraint']
 SHARDS = {'quick': (16, 160), 'thorough': (16, 5000)}
 BUDGET = {'quick': 100, 'thorough': 1500}
